@@ -25,17 +25,24 @@ Fixpoint ldedup (l : list (list Z)) : list (list Z) :=
   | x :: t => if existsb (zlist_eqb x) t then ldedup t else x :: ldedup t
   end.
 
+(* per-node sample sets: one entry per node of the tree (_get_sample_sets().values()); a
+   unary node, or a node whose other children carry no samples, repeats its child's entry *)
+Definition clade_list (p : list Z) (samples : list Z) : list (list Z) :=
+  map (clade p samples) (filter (in_tree p samples) (zseq (length p))).
+Definition nonempty (c : list Z) : bool := match c with [] => false | _ => true end.
+(* the *set* of sample bipartitions carried by a list of per-node clades *)
+Definition clade_set (l : list (list Z)) : list (list Z) := filter nonempty (ldedup l).
+
 (* PINNED pre-fix code: set(self._get_sample_sets().values()), empty sets included *)
 Definition clades_code_pinned (p : list Z) (samples : list Z) : list (list Z) :=
-  ldedup (map (clade p samples) (filter (in_tree p samples) (zseq (length p)))).
-Definition nonempty (c : list Z) : bool := match c with [] => false | _ => true end.
+  ldedup (clade_list p samples).
 (* repaired code: {s for s in self._get_sample_sets().values() if len(s) > 0} *)
 Definition clades_code (p : list Z) (samples : list Z) : list (list Z) :=
-  filter nonempty (clades_code_pinned p samples).
+  clade_set (clade_list p samples).
 (* the documented notion: bipartitions of the samples = distinct non-empty sample sets
    below the nodes of the tree *)
 Definition clades_spec (p : list Z) (samples : list Z) : list (list Z) :=
-  ldedup (filter nonempty (map (clade p samples) (filter (in_tree p samples) (zseq (length p))))).
+  ldedup (filter nonempty (clade_list p samples)).
 
 Definition symdiff (a b : list (list Z)) : Z :=
   Z.of_nat (length (filter (fun x => negb (existsb (zlist_eqb x) b)) a)
@@ -45,3 +52,6 @@ Definition rf_code (p1 p2 samples : list Z) : Z := symdiff (clades_code p1 sampl
 Definition rf_code_pinned (p1 p2 samples : list Z) : Z :=
   symdiff (clades_code_pinned p1 samples) (clades_code_pinned p2 samples).
 Definition rf_spec (p1 p2 samples : list Z) : Z := symdiff (clades_spec p1 samples) (clades_spec p2 samples).
+
+(* rf as a function of the two per-node clade lists *)
+Definition rf_of_lists (l1 l2 : list (list Z)) : Z := symdiff (clade_set l1) (clade_set l2).
